@@ -604,8 +604,10 @@ class ExcelCompiler:
                             needed_cells.add(child_address)
                         walk_precedents(child_cell)
                     else:
-                        # trim this cell, now we will need only its value
+                        # trim this cell, now we will need only its value,
+                        # calculate it if nobody asked for it yet
                         needed_cells.add(child_address)
+                        self.evaluate(child_address)
                         child_cell.formula = None
                         self.log.debug(f'Trimming {child_address}')
 
